@@ -14,6 +14,12 @@
    are separate steps, exactly the order of the source:
      wait:  [lock I] [unlock U] [push entry; unlock I] [suspend] [lock I] [entry cleared? erase; unlock I] [lock U]
    notify_one / notify_all: [lock I] [pop one / swap all] [resume each ...] [unlock I].
+   Timed stop-token wait (condition_variable_any::wait_until/wait_for(lock, stoken, t, pred)), the composition
+   the header implements:
+     [stop_requested? -> return pred()] [construct stop_callback: run inline if requested, else register]
+     loop: [pred() -> return true] [lock I] [stop_requested? -> unlock I, return false] [unlock U]
+           [push entry; unlock I] [sleep_until t] [lock I] [entry cleared? erase]
+           [should_stop := timeout || stop_requested(); unlock I] [lock U] [should_stop -> return pred()]
    Two agent instances, chosen per thread by [isos]:
      pika task      Base/Agent.v: resume never blocks, may leave a token (spurious return later)
      plain OS thread  the default agent of execution_base/src/this_thread.cpp as it is: resume WAITS until
@@ -30,6 +36,7 @@ Inductive cv_op :=
   | CWaitFor                          (* wait_until / wait_for (lock, t) *)
   | CWaitForPred                      (* wait_until / wait_for (lock, t, pred) *)
   | CWaitStop                         (* condition_variable_any::wait(lock, stop_token, pred) *)
+  | CWaitStopFor                      (* condition_variable_any::wait_until / wait_for (lock, stop_token, t, pred) *)
   | CDWait                            (* detail::condition_variable::wait under I only (no user lock) *)
   | CNotifyOne | CNotifyAll
   | CRequestStop
@@ -49,7 +56,10 @@ Inductive cv_pc :=
   | CSleep                            (* inside sleep_until *)
   | CRelockI                          (* woken / deadline passed; about to re-lock I  (hook 701) *)
   | CCheck                            (* read the entry, erase it if still queued, unlock I *)
-  | CLockU (sg : bool)                (* re-lock U; sg = the entry had been cleared by a notifier *)
+  | CStopChk2 (sg : bool)             (* timed stop wait: detail wait_until returned sg, I still held:
+                                         should_stop = timeout || stop_requested(); then unlock I *)
+  | CLockU (sg : bool)                (* re-lock U; sg = the entry had been cleared by a notifier
+                                         (timed stop wait: sg = not should_stop) *)
   | NLockI (all : bool) (reps : nat) (il : bool)   (* notify: lock I; il = callback run inline by a stop-token waiter *)
   | NPop (all : bool) (reps : nat) (il : bool)
   | NRes (all : bool) (reps : nat) (il : bool).
@@ -70,7 +80,8 @@ Definition cmem (t : nat) (q : list nat) : bool := existsb (Nat.eqb t) q.
 Definition cremove (t : nat) (q : list nat) : list nat := filter (fun x => negb (Nat.eqb x t)) q.
 
 Definition cur_op (l : cv_local) : cv_op := match ctodo l with o :: _ => o | [] => CYield end.
-Definition is_timed (o : cv_op) : bool := match o with CWaitFor | CWaitForPred => true | _ => false end.
+Definition is_timed (o : cv_op) : bool :=
+  match o with CWaitFor | CWaitForPred | CWaitStopFor => true | _ => false end.
 
 (* setters *)
 Definition g_log (g : cv_shared) (e : cv_ev) : cv_shared :=
@@ -121,7 +132,7 @@ Definition cv_tstep (isos : nat -> bool) (late : bool) (t : nat) (g : cv_shared)
       | CSetFlag b :: _ => if hu l then (g_flag g b, l_pop l) else (g, l_pop l)
       | CWait :: _ | CWaitFor :: _ => if hu l then (g, l_pc l CLockI) else (g, l_pop l)
       | CWaitPred :: _ | CWaitForPred :: _ => if hu l then (g, l_pc l CPredTest) else (g, l_pop l)
-      | CWaitStop :: _ =>
+      | CWaitStop :: _ | CWaitStopFor :: _ =>
           if hu l then (if stopreq g then ret g t l (flag g) else (g, l_pc l CStopReg)) else (g, l_pop l)
       | CDWait :: _ => (g, l_pc l CLockI)
       | CNotifyOne :: _ => (g, l_pc l (NLockI false 1 false))
@@ -143,7 +154,7 @@ Definition cv_tstep (isos : nat -> bool) (late : bool) (t : nat) (g : cv_shared)
       match ilock g with
       | Some _ => (g, l)
       | None => (g_i g (Some t),
-                 l_pc l (match cur_op l with CWaitStop => CStopChk | CDWait => CPush | _ => CUnlockU end))
+                 l_pc l (match cur_op l with CWaitStop | CWaitStopFor => CStopChk | CDWait => CPush | _ => CUnlockU end))
       end
   | CStopChk => if stopreq g then ret (g_i g None) t l false else (g, l_pc l CUnlockU)
   | CUnlockU => (g_u g None, l_hu l CPush false)
@@ -166,8 +177,10 @@ Definition cv_tstep (isos : nat -> bool) (late : bool) (t : nat) (g : cv_shared)
       let g1 := g_i (g_q g (cremove t (cqueue g)) (pend g) (sig g)) None in
       match cur_op l with
       | CDWait => ret g1 t l sg
+      | CWaitStopFor => (g_q g (cremove t (cqueue g)) (pend g) (sig g), l_pc l (CStopChk2 sg))
       | _ => (g1, l_pc l (CLockU sg))
       end
+  | CStopChk2 sg => (g_i g None, l_pc l (CLockU (sg && negb (stopreq g))))
   | CLockU sg =>
       match uowner g with
       | Some _ => (g, l)
@@ -176,7 +189,7 @@ Definition cv_tstep (isos : nat -> bool) (late : bool) (t : nat) (g : cv_shared)
           let l1 := l_hu l (cpc l) true in
           match cur_op l with
           | CWaitPred | CWaitStop => (g1, l_pc l1 CPredTest)
-          | CWaitForPred => if sg then (g1, l_pc l1 CPredTest) else ret g1 t l1 (flag g)
+          | CWaitForPred | CWaitStopFor => if sg then (g1, l_pc l1 CPredTest) else ret g1 t l1 (flag g)
           | _ => ret g1 t l1 sg
           end
       end
@@ -242,7 +255,7 @@ Definition released_waiting (p : cv_pc) : bool :=
   match p with CPreSusp | CSusp | CSleep | CRelockI => true | _ => false end.
 (* program counters at which the thread holds I *)
 Definition holds_i (p : cv_pc) : bool :=
-  match p with CStopChk | CUnlockU | CPush | CCheck | NPop _ _ _ | NRes _ _ _ => true | _ => false end.
+  match p with CStopChk | CUnlockU | CPush | CCheck | CStopChk2 _ | NPop _ _ _ | NRes _ _ _ => true | _ => false end.
 Definition cv_stuck (isos : nat -> bool) (g : cv_shared) (ls : nat -> cv_local) : Prop :=
   forall t, cv_enabled isos t g (ls t) = false.
 (* what the lock-step controller sees of a thread between two scheduled steps *)
